@@ -9,6 +9,7 @@ import os
 import sys
 
 import c16_gen
+import c16_space
 import html_gen
 import html_util as hu
 from common import VERIF
@@ -111,6 +112,14 @@ def _inputs(ctx):
     for on, toks in c16_gen.CASE_TOKENS:
         for s in c16_gen.case_token_strings(toks, 3 if quick else 4):
             out.append((s, on, 'case-token-sequences'))
+    if SPACE:
+        # white space of every kind in every place of a tag / a small document where a blank can stand
+        for i, s in enumerate(c16_space.html_space_shapes()):
+            out.append((s, ('html', 'ab')[i % 2], 'space-shapes'))
+        for i in range(120 if quick else 3000):
+            d = html_gen.gen_document(rng, xml=(i % 4 == 3), max_nodes=8)
+            s = c16_space.space_mutate(rng, d.text[:300], delims='<>="\'/')
+            out.append((html_gen.mutate(rng, s) if i % 3 == 0 else s, 'xml' if d.xml else 'html', 'space-mutated'))
     n_rand = 2500 if quick else 60000
     for i in range(n_rand):
         on = ('html', 'ab', 'ab-xml', 'xml', 'nospecial')[i % 5]
@@ -131,6 +140,7 @@ def _inputs(ctx):
     return out
 
 
+SPACE = True      # white space of every kind (c16_space) in every place of a tag
 SCALE = True      # documents with depth / counts / token lengths in the thousands (sampled positions)
 
 
@@ -150,7 +160,13 @@ def run_html(ctx):
         'attribute and its value, CDATA / doctype keywords, open and close tag in DIFFERENT case; ALL sequences of up to %d '
         'tokens over %s; half of the random strings over the alphabet / fragment list extended with upper case; two fifths '
         'of the generated documents get the case of 1..4 tag names or letter runs changed (one fifth otherwise left '
-        'valid). SCALE (%s): %d document families (nested chain of first children, the same with siblings, unclosed / '
+        'valid). WHITE SPACE OF EVERY KIND (%s): %d tag / document shapes (after the tag name, between attributes, around `=`, '
+        'inside quoted / unquoted / bracketed values, before `/>` and `>`, inside close tags, comments, CDATA, processing '
+        'instructions, half-typed tags, the `type` attribute of special elements) with every slot filled by every one of the '
+        '%d characters of c16_space.SPACES (Unicode White_Space, str.isspace(), U+200B U+2060 U+FEFF; 8 representatives '
+        'alone, doubled and next to ASCII blanks, the others in one form each); generated documents in which runs of blanks '
+        'are replaced, runs inserted next to delimiters, attribute values / contents replaced by a drawn run (a third '
+        'mutated further). SCALE (%s): %d document families (nested chain of first children, the same with siblings, unclosed / '
         'partly closed / misnested chain, stray close tags, many siblings, many void siblings, many attributes, long values '
         'and text, brackets nested in an attribute, long comment/CDATA/PI sections, unclosed comment, long special-element '
         'body closed and unclosed, a generated document wrapped in a deep stack and the same cut off) with depth / count '
@@ -160,6 +176,7 @@ def run_html(ctx):
         'non-trivial when the scanner reports at least one tag; distinct by (string, options).') % (
             3 if quick else 4, len(html_gen.ALPHABET), ''.join(html_gen.ALPHABET), len(c16_gen.CASE_SEEDS), 3 if quick else 4,
             ' and '.join('%s (options %s)' % (' '.join(t), on) for on, t in c16_gen.CASE_TOKENS),
+            'on' if SPACE else 'OFF', len(c16_space.HTML_SHAPES), len(c16_space.SPACES),
             'on' if SCALE else 'OFF', 17, '1100/1500/2100' if quick else '1100/1500/2100/5000', USER_RECURSION_LIMIT)
     ins = inputs(ctx)
     jobs = []
